@@ -62,6 +62,23 @@ theorem httpxHost_of_normal (scheme host : Bytes) (h : hostIsNormal scheme host 
   unfold hostIsNormal at h
   simpa using h
 
+/-- the `Host` header on the wire is the configured host exactly when the client sets the header itself or httpx has nothing to
+normalise — for every scheme and host string -/
+theorem wireHost_eq_iff (explicit : Bool) (scheme host : Bytes) :
+    wireHost explicit scheme host = host ↔ (explicit = true ∨ hostIsNormal scheme host = true) := by
+  cases explicit with
+  | true => simp [wireHost]
+  | false => simp [wireHost, hostIsNormal]
+
+/-- the configured hosts whose `Host` header reaches the wire as it was signed: every host once the adapter sets the header itself
+(`hostHeaderExplicit`, generated); until then the spellings httpx leaves alone (D11) -/
+def HostOk (i : Inputs) : Prop := hostHeaderExplicit = true ∨ hostIsNormal i.scheme i.host = true
+
+instance (i : Inputs) : Decidable (HostOk i) := by unfold HostOk; infer_instance
+
+theorem wireHost_of_ok (i : Inputs) (h : HostOk i) : wireHost hostHeaderExplicit i.scheme i.host = i.host :=
+  (wireHost_eq_iff _ _ _).mpr h
+
 /-! ## what is sent in the headers is what was signed -/
 theorem sent_contentSha (c : Crypto) (i : Inputs) : sentHeaderValue c i hContentSha = i.payloadDigest := rfl
 theorem sent_amzDate (c : Crypto) (i : Inputs) : sentHeaderValue c i hAmzDate = i.amzDate := rfl
